@@ -199,6 +199,36 @@ theorem C15_pipe_of_any_expressions (As Bs : List Token) (eA eB pt : Token) (a b
   obtain ⟨X, hR, hev⟩ := Parser.pipe_of_parses heA heB hpt (parse_consumes_all heA hnA hA) (parse_consumes_all heB hnB hB)
   exact ⟨X, Parser.parseTokens_of_R hR ⟨eB, [], rfl, heB⟩ htoks, hev⟩
 
+/-- Non-vacuity: the hypotheses of `C15_pipe_of_any_expressions` are met by `a[*].b` and `c || d`
+    (whose parses come from the printer theorem). -/
+example : ∃ X, parseTokens (N := Int) Generated.table
+      ([tk .uident (b "a"), tk .lbracket, tk .star, tk .rbracket, tk .dot, tk .uident (b "b")] ++ tk .pipe ::
+        ([tk .uident (b "c"), tk .or, tk .uident (b "d")] ++ [eofTok 0])) = .ok X ∧
+      ∀ (ft : List FnEntry) (d : Val Int), eval ft X d =
+        (eval ft (.proj (.field (b "a")) (.field (b "b"))) d >>= fun v => eval ft (.or (.field (b "c")) (.field (b "d"))) v) := by
+  have hsd := sameDecisions_of_tableOK Generated.table Spec.table generated_table_ok spec_table_ok
+  have hA : parseTokens (N := Int) Generated.table
+      ([tk .uident (b "a"), tk .lbracket, tk .star, tk .rbracket, tk .dot, tk .uident (b "b")] ++ [eofTok 0]) =
+      .ok (.proj (.field (b "a")) (.field (b "b"))) := by
+    have hw : Parser.wf (.bstar (.ident (b "a")) (.dot (.ident (b "b"))) : PE Int) := by
+      simp [Parser.wf, Parser.wfRhs, dotOK, first, PE.isListOrHash, PE.level, PE.rp]
+    have := round_trip_spec (N := Int) _ hw
+    rw [parseTokens_congr hsd]
+    simpa [ppE, ppRhs, PE.rp, Rhs.rp, PE.isListOrHash, node, nodeRhs] using this
+  have hB : parseTokens (N := Int) Generated.table ([tk .uident (b "c"), tk .or, tk .uident (b "d")] ++ [eofTok 0]) =
+      .ok (.or (.field (b "c")) (.field (b "d"))) := by
+    have hw : Parser.wf (.bin .or (.ident (b "c")) (.ident (b "d")) : PE Int) := by simp [Parser.wf]
+    have := round_trip_spec (N := Int) _ hw
+    rw [parseTokens_congr hsd]
+    simpa [ppE, PE.rp, PE.level, node, BinOp.pow, BinOp.tok, BinOp.node] using this
+  refine C15_pipe_of_any_expressions _ _ (eofTok 0) (eofTok 0) (tk .pipe) _ _ 0 rfl rfl rfl ?_ ?_ hA hB ?_
+  · intro t ht; simp at ht; rcases ht with rfl | rfl | rfl | rfl | rfl | rfl <;> simp [tk]
+  · intro t ht; simp at ht; rcases ht with rfl | rfl | rfl <;> simp [tk]
+  · refine ⟨⟨[tk .uident (b "a"), tk .lbracket, tk .star, tk .rbracket, tk .dot, tk .uident (b "b"), tk .pipe,
+        tk .uident (b "c"), tk .or, tk .uident (b "d")], rfl, ?_⟩, ?_⟩
+    · intro t ht; simp at ht; rcases ht with rfl | rfl | rfl | rfl | rfl | rfl | rfl | rfl | rfl | rfl <;> simp [tk]
+    · intro t ht; simp at ht; rcases ht with rfl | rfl | rfl | rfl | rfl | rfl | rfl | rfl | rfl | rfl | rfl <;> simp [tk, eofTok]
+
 end AnyExpressions
 
 end Jmes.Props
